@@ -228,7 +228,9 @@ impl Lexer {
                 "limit" => Some(Lexem::Limit),
                 "into" => Some(Lexem::Into),
                 "eq" | "ne" | "gt" | "lt" | "ge" | "le" | "gte" | "lte" | "regexp" | "rx"
-                | "like" | "between" => Some(Lexem::Operator(s)),
+                | "like" | "between" | "eeq" | "ene" | "notrx" | "notlike" => {
+                    Some(Lexem::Operator(s))
+                }
                 "mul" | "div" | "mod" | "plus" | "minus" => Some(Lexem::ArithmeticOperator(s)),
                 _ => Some(Lexem::RawString(s)),
             },
